@@ -280,6 +280,8 @@ def check_stream(case, rec):
                info["index"] != "default" or info["axis_absent"])
     labels = [k for k in ("window_excludes_row", "row_on_ending", "row_on_starting", "one_sided_window", "axis_absent",
                           "neighbour_test") if info[k]] + [f"index={info['index']}"] + [f"fe={f}" for f in case["frontends"]]
+    if "qcconfig" in case["frontends"]:
+        labels.append(f"qc_tinp={case.get('qc_tinp', 'ndarray')}")
     if not info["has_time"]:
         labels.append("no_time_column")
     elif any(float(v) != int(v) for v in case["table"]["t"]):
@@ -332,6 +334,20 @@ def check_stream(case, rec):
                      expected=probes[:2], got=log[:2], frontend=fe, probe=True, **info)
 
 
-SUBS = [Sub("streams", stream_case, check_stream, quick=1600, thorough=24000)]
+@st.composite
+def qc_case(draw, tier="quick"):
+    """QcConfig.run: one stream, one context; time axis given in the carriers users pass (arrays, lists of datetimes /
+    Timestamps, Series, DatetimeIndex), half of the tables with sub-second sampling."""
+    tbl = draw(sg.table(max_rows=20, stream_names=["temp"], force_axes={"time": True}))
+    if tbl["t"] and draw(st.booleans()):
+        tbl["t"] = [sg.tnorm(int(v) + draw(st.sampled_from([0.0, 0.125, 0.5, 0.875]))) for v in tbl["t"]]
+    entries = draw(st.lists(sg.test_entry(tbl), min_size=1, max_size=3, unique_by=lambda e: (e[0], e[1])))
+    ctx = {"window": draw(sg.window(tbl["t"])), "streams": {"temp": entries}}
+    return {"table": tbl, "contexts": [ctx], "style": draw(st.sampled_from(["iso", "datetime"])), "frontends": ["qcconfig"],
+            "qc_tinp": draw(st.sampled_from(["ndarray", "list_datetime", "list_timestamp", "series", "dtindex"]))}
+
+
+SUBS = [Sub("streams", stream_case, check_stream, quick=1600, thorough=24000),
+        Sub("qcconfig", qc_case, check_stream, quick=600, thorough=8000)]
 REQUIRED_CLASSES = ["streams:window_excludes_row", "streams:row_on_ending", "streams:axis_absent", "streams:one_sided_window",
                     "streams:index=reversed", "streams:no_time_column"] + [f"streams:fe={f}" for f in FRONTENDS]
